@@ -417,8 +417,18 @@ fn invariants(src: &AnalyzedSource) -> Vec<String> {
     bad
 }
 
+fn class_of(m: &spl_frontend::error::ErrorMessage) -> &'static str {
+    use spl_frontend::error::ErrorMessage::*;
+    match m {
+        LexErrorMessage(_) => "lex",
+        ParseErrorMessage(_) => "parse",
+        BuildErrorMessage(_) => "build",
+        SemanticErrorMessage(_) => "semantic",
+    }
+}
+
 fn errors_json(errs: &[SplError]) -> Value {
-    Value::Array(errs.iter().map(|e| json!([e.0.start, e.0.end, e.1.to_string().trim_end()])).collect())
+    Value::Array(errs.iter().map(|e| json!([e.0.start, e.0.end, e.1.to_string().trim_end(), class_of(&e.1)])).collect())
 }
 
 // ------------------------------------------------------------------------------------------ ops
